@@ -105,7 +105,13 @@ func peach(fm *Frame, opts peachOpt, f Callable, inputs Inputs) error {
 			return
 		}
 		if workerSema != nil {
-			workerSema.Acquire(ctx, 1)
+			if workerSema.Acquire(ctx, 1) != nil {
+				// The context was canceled while waiting for a worker slot.
+				// No slot is held, so stop dispatching instead of starting a
+				// worker that would release a slot it never acquired.
+				atomic.StoreInt32(&broken, 1)
+				return
+			}
 		}
 		// A callback may have broken or failed while this input was waiting
 		// for a worker slot; give the slot back instead of starting one more.
